@@ -257,6 +257,28 @@ def shapes(tier, seed):
         # assembling `nop` at the origin needs one byte inside GLOBAL
         S.append(ConfigShape(f'global-vs-origin-{bits}bit', config=c,
                              accept=f'And(gs <= ge, ge <= {top}, gs <= org, org <= ge)'))
+    # operand count against the operand list: the count is symbolic, the list length enumerated (incl. the empty list)
+    for where in ('instruction', 'macro', 'variant'):
+        for k, lst in enumerate(([], ['regs'], ['regs', 'imm'], ['regs', 'imm', 'bit'])):
+            c = good_isa()
+            ops = {'count': Sym('cnt', 0, 4), 'operand_sets': {'list': list(lst)}}
+            if where == 'instruction':
+                c['instructions']['mov']['operands'] = ops
+            elif where == 'macro':
+                c['macros']['mov2'][0]['operands'] = ops
+                c['macros']['mov2'][0]['instructions'] = ['nop', 'nop']
+            else:
+                c['instructions']['bset']['variants'] = [{'bytecode': {'value': 9, 'size': 5}, 'operands': ops}]
+            S.append(ConfigShape(f'operand-count-vs-list:{where}:{k}', config=c, accept=f'cnt == {k}'))
+    for k in (1, 2):
+        c = good_isa()
+        lst = {'r': {'type': 'register', 'register': 'rb', 'bytecode': {'value': 1, 'size': 3}},
+               'n': {'type': 'numeric', 'argument': arg(8, True)}}
+        if k == 1:
+            del lst['n']
+        c['instructions']['bset']['variants'] = [{'bytecode': {'value': 9, 'size': 5}, 'operands': {
+            'count': Sym('cnt', 0, 4), 'specific_operands': {'one': {'list': lst}}}}]
+        S.append(ConfigShape(f'operand-count-vs-specific-list:{k}', config=c, accept=f'cnt == {k}'))
     # (d) corruption catalogue -------------------------------------------------------------------------------------
     S.append(CorruptionShape('wellformed:baseline', config=good_isa(), files={'main.asm': 'mov ra, 5\nbset 3\nmov2 rb, 1\n'},
                              expect=['ok']))
